@@ -47,6 +47,12 @@ PREDS = {
     "truthy": lambda s: bool(s),
     "always": lambda s: True,
     "boom": _boom,
+    # predicates that are classes (callable, but not to be taken for an isinstance test)
+    "cbool": bool,
+    "cstr": str,
+    "cint": int,
+    "cdict": dict,
+    "cuser": type("Wrapped", (object,), {"__init__": lambda self, sub: setattr(self, "sub", sub)}),
 }
 
 
